@@ -24,7 +24,6 @@ package c20
 import (
 	"fmt"
 	"os"
-	"runtime"
 	"sort"
 	"strings"
 	"sync"
@@ -33,6 +32,7 @@ import (
 	"time"
 
 	"verif/kit"
+	"verif/vlife"
 
 	mycoria "github.com/mycoria/mycoria"
 	"github.com/mycoria/mycoria/config"
@@ -43,200 +43,41 @@ type vnetResult struct {
 	ops      []string
 	fired    map[string]bool
 	problems []string // key|detail
-	outcome  string
 }
 
 const vnetHorizon = 330 * time.Second
 
+func vnetStores(c cfgSpec, dir string) []config.Store {
+	loopHost = "127.0.0.1"
+	stores := []config.Store{
+		mkStore(c, pool[0], []int{4001}, 0, dir, "va"),
+		mkStore(c, pool[1], []int{4002}, 4001, dir, "vb"),
+		mkStore(c, pool[2], []int{4003}, 4001, dir, "vc"),
+	}
+	for i := range stores {
+		stores[i].System.APIListen = ""
+	}
+	return stores
+}
+
 func vnetRun(t *testing.T, c cfgSpec, faults []string) (res vnetResult) {
-	res.fired = map[string]bool{}
-	problem := func(key, detail string) { res.problems = append(res.problems, key+"|"+detail) }
-	body := func(t *testing.T) {
-		n := vnet.New()
-		var fmu sync.Mutex
-		var lastFault time.Time
-		stopping := false
-		want := map[string]bool{}
-		for _, f := range faults {
-			want[f] = true
-		}
-		n.Fault = func(op string) bool {
-			if !want[op] {
-				return false
-			}
-			fmu.Lock()
-			res.fired[op] = true
-			if !stopping {
-				lastFault = time.Now()
-			}
-			fmu.Unlock()
-			return true
-		}
-		vnet.Install(n)
-		defer vnet.Install(nil)
-		base := runtime.NumGoroutine()
-		loopHost = "127.0.0.1"
-		dir := t.TempDir()
-		stores := []config.Store{
-			mkStore(c, pool[0], []int{4001}, 0, dir, "va"),
-			mkStore(c, pool[1], []int{4002}, 4001, dir, "vb"),
-			mkStore(c, pool[2], []int{4003}, 4001, dir, "vc"),
-		}
-		var insts []*mycoria.Instance
-		for i, st := range stores {
-			st.System.APIListen = ""
-			cfg, err := st.Parse()
-			if err != nil {
-				problem("vnet/config-rejected", err.Error())
-				return
-			}
-			var inst *mycoria.Instance
-			pan, pv := kit.Try(func() { inst, err = mycoria.New("verif", cfg) })
-			if pan || err != nil {
-				problem("vnet/new-fails", fmt.Sprintf("router %d: panic=%v err=%v", i, pv, err))
-				return
-			}
-			insts = append(insts, inst)
-		}
-		a, b, cc := insts[0], insts[1], insts[2]
-		start := func(inst *mycoria.Instance, name string) bool {
-			var err error
-			pan, pv := kit.Try(func() { err = inst.Start() })
-			if pan || err != nil {
-				problem("vnet/start-fails", fmt.Sprintf("Start of %s: panic=%v err=%v", name, pv, err))
-				return false
-			}
-			return true
-		}
-		started := []*mycoria.Instance{}
-		if start(a, "A") {
-			started = append(started, a)
-		}
-		if start(b, "B") {
-			started = append(started, b)
-		}
-		time.Sleep(150 * time.Second)
-		synctest.Wait()
-		if start(cc, "C") {
-			started = append(started, cc)
-		}
-		time.Sleep(vnetHorizon - 150*time.Second)
-		synctest.Wait()
-		// two minute ticks of the managers after the last fault.
-		fmu.Lock()
-		lf := lastFault
-		fmu.Unlock()
-		if !lf.IsZero() {
-			if d := lf.Add(125 * time.Second).Sub(time.Now()); d > 0 {
-				time.Sleep(d)
-				synctest.Wait()
-			}
-		}
-		expectPeering := c.secret == "" || c.universe != ""
-		if expectPeering && len(started) == 3 {
-			for _, pr := range []struct {
-				name string
-				x, y *mycoria.Instance
-			}{{"A-B", a, b}, {"A-C", a, cc}} {
-				lx := pr.x.Peering().GetLink(pr.y.Identity().IP)
-				ly := pr.y.Peering().GetLink(pr.x.Identity().IP)
-				if lx == nil || ly == nil {
-					problem("vnet/not-peered", fmt.Sprintf("%s: two minute ticks after the last fault the routers have no link on both sides (listener side has link: %v, dialling side has link: %v; A listens: %v, times A's address was bound: %d)",
-						pr.name, lx != nil, ly != nil, n.Listening("127.0.0.1:4001"), n.Listens["127.0.0.1:4001"]))
-				}
-			}
-		}
-		fmu.Lock()
-		stopping = true
-		fmu.Unlock()
-		for i := len(started) - 1; i >= 0; i-- {
-			var stopped bool
-			inst := started[i]
-			pan, pv := kit.Try(func() { guardStop(func() { stopped = inst.Stop() }) })
-			if pan {
-				problem("vnet/stop-panics", fmt.Sprintf("Stop of router %d panicked: %v", i, pv))
-			} else if !stopped {
-				problem("vnet/stop-false", fmt.Sprintf("Stop of router %d returned false (a worker did not stop)", i))
-			}
-			synctest.Wait()
-		}
-		time.Sleep(time.Second)
-		synctest.Wait()
-		_ = base
-		if left := bubbleLeftovers(); len(left) > 0 {
-			problem("vnet/goroutines-left-running", fmt.Sprintf("%d goroutines of the routers are left after every router stopped: %s", len(left), strings.Join(left, "; ")))
+	r := vlife.Run(t, vnetStores(c, t.TempDir()), faults, vlife.Options{
+		Horizon: vnetHorizon, LateStart: 150 * time.Second, ExpectPeering: c.secret == "" || c.universe != "",
+		GuardStop: guardStop, ListenAddr: "127.0.0.1:4001",
+		OnLeftovers: func() {
 			if stopWatch != nil {
 				stopWatch.Case("vnet/bubble-does-not-end", "workers left running keep the virtual clock going for ever")
 			}
-		}
-		res.ops = n.OpNames()
-	}
-	pan, pv := kit.Try(func() { synctest.Test(t, body) })
+		},
+	})
 	if stopWatch != nil {
 		stopWatch.Case("", "")
 	}
-	if pan {
-		problem("vnet/bubble-ended-abnormally", fmt.Sprintf("%v", pv))
-	}
-	return res
+	return vnetResult{ops: r.Ops, fired: r.Fired, problems: r.Problems}
 }
 
-// bubbleLeftovers lists the goroutines of the current synctest bubble other than the caller
-// (after synctest.Wait every one of them is durably blocked, so the list is exact).
-func bubbleLeftovers() []string {
-	buf := make([]byte, 1<<20)
-	for {
-		n := runtime.Stack(buf, true)
-		if n < len(buf) {
-			buf = buf[:n]
-			break
-		}
-		buf = make([]byte, 2*len(buf))
-	}
-	var out []string
-	for i, blk := range strings.Split(string(buf), "\n\n") {
-		lines := strings.Split(blk, "\n")
-		if i == 0 || len(lines) < 2 || !strings.Contains(lines[0], "synctest bubble") {
-			continue // block 0 is the calling goroutine
-		}
-		// the bubble's root (testing/synctest.Test.func1 waiting for the body) is not a worker.
-		if strings.Contains(blk, "testing/synctest.testingSynctestTest") || strings.Contains(blk, "synctest.Run") {
-			continue
-		}
-		fn := ""
-		for _, l := range lines[1:] {
-			if strings.HasPrefix(l, "github.com/mycoria/mycoria/") && !strings.Contains(l, "/mgr.") && !strings.Contains(l, "zz_verif") {
-				fn = strings.SplitN(l, "(", 2)[0]
-				break
-			}
-		}
-		if fn == "" {
-			fn = strings.SplitN(lines[1], "(", 2)[0]
-		}
-		st := lines[0]
-		if k := strings.Index(st, "["); k >= 0 {
-			st = st[k:]
-		}
-		out = append(out, fn+" "+st)
-	}
-	sort.Strings(out)
-	return out
-}
-
-func opClass(op string) string {
-	// conn#1/client/read#7 -> conn/client/read ; accept@127.0.0.1:4001#2 -> accept ; dial#1 -> dial
-	switch {
-	case strings.HasPrefix(op, "dial"):
-		return "dial"
-	case strings.HasPrefix(op, "accept"):
-		return "accept"
-	}
-	parts := strings.Split(op, "/")
-	if len(parts) == 3 {
-		return "conn/" + parts[1] + "/" + strings.SplitN(parts[2], "#", 2)[0]
-	}
-	return op
-}
+func bubbleLeftovers() []string { return vlife.BubbleLeftovers() }
+func opClass(op string) string  { return vlife.OpClass(op) }
 
 // vnetStopSweep: two routers (A listens, B dials) are started and stopped after T virtual
 // seconds, for every T of a list that brackets the timing constants of the workers (first
